@@ -47,6 +47,9 @@ pub struct ModelState {
     pub disk: Disk,
     pub clock: u64,
     pub records: Vec<MRecord>,
+    /// E1 only: the generator writes the top-level manifest only when its text changes (CMake style);
+    /// a generation that differs only in an included file then leaves the manifest's timestamp alone
+    pub gen_write_if_changed: bool,
 }
 
 impl ModelState {
@@ -217,7 +220,7 @@ pub fn apply_effect(
             break;
         }
         let c = contents[i];
-        if step.effect == Effect::WriteIfChanged {
+        if step.effect == Effect::WriteIfChanged || (step.effect == Effect::Generator && st.gen_write_if_changed && *o == proj.manifest && next_manifest_content.is_some()) {
             if let Some(old) = st.disk.get(o) {
                 if old.content == c {
                     continue;
